@@ -54,8 +54,48 @@ def solve_one(smt2: str, timeout=20, retry=120, want_both=False):
     return {"result": "unknown", "solver": "-", "time": sum(a[2] for a in attempts), "attempts": attempts}
 
 
+def load_factor():
+    """how much slower than an idle machine solver processes currently run: 1-minute load average per core, clamped to
+    [1, 4].  Solver budgets are multiplied by it, so that a busy machine does not turn a 7-second proof into a time-out."""
+    try:
+        ncpu = os.cpu_count() or 1
+        return max(1.0, min(4.0, 1.25 * os.getloadavg()[0] / ncpu))
+    except OSError:
+        return 1.0
+
+
+def rescue(texts, budget=120):
+    """last resort for a query every stage left undecided: long budgets, few at a time, cvc5 first (it decides the
+    quantified queries z3 leaves open).  texts: [(key, [smt2 variants])] -> {key: verdict}"""
+    out = {}
+
+    def work(item):
+        key, variants = item
+        attempts = []
+        f = load_factor()
+        for txt in variants:
+            t2 = txt if "(set-logic" in txt else "(set-logic ALL)\n" + txt
+            b = int(budget * f)
+            r, t = _run([CVC5, "--lang=smt2", f"--tlimit={b * 1000}", "-"], t2, b)
+            attempts.append(("rescue-cvc5", r, round(t, 3)))
+            if r in ("unsat", "sat"):
+                return key, {"result": r, "solver": "cvc5", "time": sum(a[2] for a in attempts), "attempts": attempts}
+            r, t = _run([Z3, "-in", f"-T:{b}"], txt, b)
+            attempts.append(("rescue-z3", r, round(t, 3)))
+            if r in ("unsat", "sat"):
+                return key, {"result": r, "solver": "z3", "time": sum(a[2] for a in attempts), "attempts": attempts}
+        return key, {"result": "unknown", "solver": "-", "time": sum(a[2] for a in attempts), "attempts": attempts}
+
+    with ThreadPoolExecutor(max_workers=4) as ex:
+        for key, v in ex.map(work, texts):
+            out[key] = v
+    return out
+
+
 def discharge_all(items, timeout=20, retry=120, want_both=False):
     """items: list of (key, smt2 text).  Identical texts are solved once."""
+    f = load_factor()
+    timeout, retry = int(round(timeout * f)), int(round(retry * f))
     uniq = {}
     for key, txt in items:
         h = hashlib.sha1(txt.encode()).hexdigest()
